@@ -93,42 +93,9 @@ func (t *tokenStream) next() {
 	t.index++
 }
 
-func (t *tokenStream) parseParenthesizedExpression() *node {
-	openParen := t.parseOperator("(")
-	if openParen == nil {
-		// paren not found
-		return nil
-	}
-
-	expr := t.parseExpression()
-	if t.err != nil {
-		return nil
-	}
-
-	if !t.hasMore() {
-		// no more tokens, so missing closing paren
-		t.err = errors.New("open parenthesis does not have a matching close parenthesis")
-		return nil
-	}
-
-	closeParen := t.parseOperator(")")
-	if closeParen == nil {
-		t.err = errors.New("open parenthesis does not have a matching close parenthesis")
-		return nil
-	}
-
-	return expr
-}
-
+// Return a node representation of a license reference or a license, the operands that are
+// not a parenthesized expression.  If neither is found, an error is returned.
 func (t *tokenStream) parseAtom() *node {
-	parenNode := t.parseParenthesizedExpression()
-	if t.err != nil {
-		return nil
-	}
-	if parenNode != nil {
-		return parenNode
-	}
-
 	refNode := t.parseLicenseRef()
 	if t.err != nil {
 		return nil
@@ -187,92 +154,101 @@ func (t *tokenStream) parseAtom() *node {
 	return nil
 }
 
-func (t *tokenStream) parseExpression() *node {
-	left := t.parseAnd()
-	if t.err != nil {
-		return nil
-	}
-	if left == nil {
-		return nil
-	}
-	if !t.hasMore() {
-		// expression found and no more tokens to process
-		return left
-	}
-
-	operator := t.parseOperator("OR")
-	if operator == nil {
-		return left
-	}
-	op := strings.ToLower(*operator)
-
-	if !t.hasMore() {
-		// expression found and no more tokens to process
-		t.err = errors.New("expected expression following OR, but found none")
-		return nil
-	}
-
-	right := t.parseExpression()
-	if t.err != nil {
-		return nil
-	}
-	if right == nil {
-		t.err = errors.New("expected expression following OR, but found none")
-		return nil
-	}
-
-	return &(node{
-		role: expressionNode,
-		exp: &(expressionNodePartial{
-			left:        left,
-			conjunction: op,
-			right:       right,
-		}),
-	})
+// operandGroup collects the operands read so far at one level of parentheses.
+type operandGroup struct {
+	alternatives []*node // finished operands of the ORs at this level, each one an AND chain
+	terms        []*node // operands of the AND chain being read
 }
 
-// Return a node representation of an atomic value or an AND expression.  If a malformed
-// atomic value or expression is found, an error is returned.  Advances the index if a
-// valid atomic value or a valid expression is found.
-func (t *tokenStream) parseAnd() *node {
-	left := t.parseAtom()
-	if t.err != nil {
-		return nil
-	}
-	if left == nil {
-		return nil
-	}
-	if !t.hasMore() {
-		// atomic token found and no more tokens to process
-		return left
-	}
+// Finish the AND chain being read.
+func (g *operandGroup) closeTerms() {
+	g.alternatives = append(g.alternatives, joinOperands("and", g.terms))
+	g.terms = g.terms[:0]
+}
 
-	operator := t.parseOperator("AND")
-	if operator == nil {
-		return left
-	}
+// Return the node for everything read at this level.
+func (g *operandGroup) node() *node {
+	g.closeTerms()
+	return joinOperands("or", g.alternatives)
+}
 
-	if !t.hasMore() {
-		// expression found and no more tokens to process
-		t.err = errors.New("expected expression following AND, but found none")
-		return nil
+// Chain the operands with the conjunction.  Chains lean to the right: a AND b AND c is
+// { LEFT: a and RIGHT: { LEFT: b and RIGHT: c } }.
+func joinOperands(conjunction string, operands []*node) *node {
+	joined := operands[len(operands)-1]
+	for i := len(operands) - 2; i >= 0; i-- {
+		joined = &node{
+			role: expressionNode,
+			exp: &expressionNodePartial{
+				left:        operands[i],
+				conjunction: conjunction,
+				right:       joined,
+			},
+		}
 	}
+	return joined
+}
 
-	right := t.parseAnd()
-	if t.err != nil {
-		return nil
+// Return a node representation of the expression starting at the index: licenses and license
+// references combined with AND, OR and parentheses, where AND binds tighter than OR.  If the
+// expression is malformed, an error is returned.  Stops at the first token that cannot continue
+// the expression, so the caller needs to check that all tokens were used.
+//
+// The levels of parentheses are kept on a stack instead of recursing, so the nesting depth of
+// the input does not add to the depth of the call stack.
+func (t *tokenStream) parseExpression() *node {
+	var enclosing []operandGroup
+	var current operandGroup
+
+	for {
+		// an operand is expected; any number of open parentheses may come first
+		for t.parseOperator("(") != nil {
+			enclosing = append(enclosing, current)
+			current = operandGroup{}
+		}
+
+		atom := t.parseAtom()
+		if t.err != nil {
+			return nil
+		}
+		current.terms = append(current.terms, atom)
+
+		// an operator is expected; any number of close parentheses may come first
+		conjunction := ""
+		for conjunction == "" {
+			if !t.hasMore() {
+				if len(enclosing) > 0 {
+					t.err = errors.New("open parenthesis does not have a matching close parenthesis")
+					return nil
+				}
+				return current.node()
+			}
+
+			switch {
+			case t.parseOperator("AND") != nil:
+				conjunction = "AND"
+			case t.parseOperator("OR") != nil:
+				current.closeTerms()
+				conjunction = "OR"
+			case len(enclosing) == 0:
+				// leave what follows to the caller
+				return current.node()
+			case t.parseOperator(")") != nil:
+				inner := current.node()
+				current = enclosing[len(enclosing)-1]
+				enclosing = enclosing[:len(enclosing)-1]
+				current.terms = append(current.terms, inner)
+			default:
+				t.err = errors.New("open parenthesis does not have a matching close parenthesis")
+				return nil
+			}
+		}
+
+		if !t.hasMore() {
+			t.err = errors.New("expected expression following " + conjunction + ", but found none")
+			return nil
+		}
 	}
-	if right == nil {
-		t.err = errors.New("expected expression following AND, but found none")
-		return nil
-	}
-
-	exp := expressionNodePartial{left: left, conjunction: "and", right: right}
-
-	return &(node{
-		role: expressionNode,
-		exp:  &exp,
-	})
 }
 
 // Return a node representation of a License Reference.  If a malformed license reference is
